@@ -39,3 +39,13 @@ Example exS_start_before_lags :
   resolves_start Z exA_desc_ll exA_span (Some 0) 0 /\ resolves_end Z exA_desc_ll exA_span None 2 /\
   (0 < lags exA_desc_ll)%nat /\ length (status exA_state) = length exA_span.
 Proof. repeat split; vm_compute; reflexivity. Qed.
+
+(* more lags (leads) than periods: the default start (end) does not exist — IndexError, nothing changed *)
+Definition exS_desc_5lags : mdesc := mkDesc [0%nat] [0%nat] 5%nat 0%nat.
+Definition exS_desc_5leads : mdesc := mkDesc [0%nat] [0%nat] 0%nat 5%nat.
+Example exS_defaults_beyond_span :
+  f_solve exA_scripts exS_desc_5lags (exA_opts ERaise) 0 exA_span [] None None exA_state = (exA_state, Raise IndexError) /\
+  f_solve exA_scripts exS_desc_5leads (exA_opts ERaise) 3 exA_span [] (Some 1) None exA_state = (exA_state, Raise IndexError) /\
+  (length exA_span <= lags exS_desc_5lags)%nat /\ (length exA_span <= leads exS_desc_5leads)%nat /\
+  resolves_start Z exS_desc_5leads exA_span (Some 1) 1.
+Proof. repeat split; vm_compute; try reflexivity; lia. Qed.
